@@ -66,7 +66,7 @@ def compile_recover(server_steps: Sequence[Sequence]) -> bytes:
 _UNRESERVED = b"ABCDEFGHIJKLMNOPQRSTUVWXYZabcdefghijklmnopqrstuvwxyz0123456789-._~"
 
 
-def pct_encode(b: bytes, plus_for_space: bool = False, raw: bytes = b"") -> bytes:
+def pct_encode(b: bytes, plus_for_space: bool = False, raw: bytes = b"", lower: int = 0) -> bytes:
     """Percent-encode everything but the unreserved characters (and the bytes in `raw`, which the sender chooses to
     leave as they are: RFC 3986 allows ? / : @ ! $ ' ( ) * , ; and, in values, = inside a query component)."""
     out = bytearray()
@@ -76,7 +76,8 @@ def pct_encode(b: bytes, plus_for_space: bool = False, raw: bytes = b"") -> byte
         elif c == 0x20 and plus_for_space:
             out += b"+"
         else:
-            out += b"%%%02X" % c
+            # hex digits of an escape are case-insensitive: lower=1 all lower case, lower=2 alternating
+            out += (b"%%%02x" % c) if lower == 1 or (lower == 2 and len(out) % 2) else (b"%%%02X" % c)
     return bytes(out)
 
 
@@ -100,11 +101,11 @@ def pct_decode(b: bytes, plus_is_space: bool = True) -> bytes:
 
 def serialize_request(method: bytes, path: bytes, params: Sequence[Tuple[bytes, bytes]],
                       headers: Sequence[Tuple[bytes, bytes]], body: bytes, plus_for_space: bool = False,
-                      raw_safe: bytes = b"") -> bytes:
+                      raw_safe: bytes = b"", lower_hex: int = 0) -> bytes:
     target = path
     if params:
         kraw = bytes(c for c in raw_safe if c != 0x3D)
-        target += b"?" + b"&".join(pct_encode(k, plus_for_space, kraw) + b"=" + pct_encode(v, plus_for_space, raw_safe)
+        target += b"?" + b"&".join(pct_encode(k, plus_for_space, kraw, lower_hex) + b"=" + pct_encode(v, plus_for_space, raw_safe, lower_hex)
                                    for k, v in params)
     return serialize_raw_request(method, target, headers, body)
 
